@@ -22,6 +22,7 @@ type Exp struct {
 	Rule    string   // rule key
 	Default string   // substring the default wording must contain ("" => any non-empty text)
 	Group   []string // member paths of a group clause, in declaration order
+	GroupUnordered bool // members come from a Go map: their order inside the clause is unspecified
 	GKind   string   // "either" | "botheq" | "either-single" | "botheq-single"
 	Order   []OrdKey // position in the walk; clauses under different keys of one Go map are unordered
 	ConfigS string   // substring a config clause must contain
@@ -54,6 +55,7 @@ type Env struct {
 }
 
 type grp struct {
+	unordered bool
 	obj     string
 	text    string
 	kind    string
@@ -342,7 +344,7 @@ func (e *Env) finishGroups() {
 				}
 			}
 			if all {
-				e.exps = append(e.exps, Exp{Kind: "group", Group: g.members, GKind: "either", Default: "they shouldn't all be empty", Order: ord})
+				e.exps = append(e.exps, Exp{Kind: "group", Group: g.members, GroupUnordered: g.unordered, GKind: "either", Default: "they shouldn't all be empty", Order: ord})
 			}
 		case "botheq":
 			eq := true
@@ -352,7 +354,7 @@ func (e *Env) finishGroups() {
 				}
 			}
 			if !eq {
-				e.exps = append(e.exps, Exp{Kind: "group", Group: g.members, GKind: "botheq", Default: "they should be equal", Order: ord})
+				e.exps = append(e.exps, Exp{Kind: "group", Group: g.members, GroupUnordered: g.unordered, GKind: "botheq", Default: "they should be equal", Order: ord})
 			}
 		}
 	}
@@ -414,7 +416,7 @@ func (e *Env) ExpectFlat(entries []FlatEntry, rules map[string]string, pathFn fu
 					}
 				}
 				if g == nil {
-					g = &grp{obj: groupObj, text: item, kind: key}
+					g = &grp{obj: groupObj, text: item, kind: key, unordered: unordered}
 					e.groups = append(e.groups, g)
 				}
 				g.members = append(g.members, pathFn(en.Key))
@@ -505,8 +507,14 @@ func (x Exp) matches(a Actual, checkEcho bool) bool {
 		if a.Kind != "group" || len(a.Paths) != len(x.Group) || !strings.Contains(a.Text, x.Default) {
 			return false
 		}
-		for i := range x.Group {
-			if a.Paths[i] != x.Group[i] {
+		want, got := x.Group, a.Paths
+		if x.GroupUnordered {
+			want, got = append([]string{}, want...), append([]string{}, got...)
+			sort.Strings(want)
+			sort.Strings(got)
+		}
+		for i := range want {
+			if got[i] != want[i] {
 				return false
 			}
 		}
